@@ -186,6 +186,28 @@ def run_threads(ctx, nproc, rounds):
                         first_tsan_report=(err0.split("==================")[1][:600] if "==================" in err0 else None)))
     for k2, txt in races.items():
         rep.violation(k2, "ThreadSanitizer, two threads serving one interface each:\n%s" % txt[:2500])
+    if not ctx.quick:
+        # second detector: helgrind on the plain build (fewer rounds; it is two orders of magnitude slower)
+        plain = H.build(ctx.work, "plain", program="vh_threads", esp32=False, extra_flags=["-DVP_THREADS", "-pthread"],
+                        name="vh_threads-plain")
+
+        def hg(i):
+            path = os.path.join(d, "in%d.txt" % i)
+            p = subprocess.run(["valgrind", "--tool=helgrind", "-q", "--history-level=approx", plain, path, "12", str(ctx.seed + i)],
+                               stdout=subprocess.PIPE, stderr=subprocess.PIPE, text=True, timeout=1800)
+            return i, p.returncode, p.stdout, p.stderr
+        with ThreadPoolExecutor(max_workers=H.NCPU) as ex:
+            hres = list(ex.map(hg, range(min(nproc, 16))))
+        hkeys = {}
+        for i, rc, out, err in hres:
+            rep.count("helgrind_processes")
+            for key, txt in H.helgrind_findings(err):
+                hkeys.setdefault(key, txt)
+                rep.count("helgrind_reports")
+        for key, txt in hkeys.items():
+            # the same recorded race, seen by a second detector, keeps the recorded key
+            k2 = "tsan:data-race:" + key.split(":", 2)[2] if key.endswith("lltd_state_for_iface<parseFrame") else key
+            rep.violation(k2, "helgrind, two threads serving one interface each:\n%s" % txt[:2000])
     rep.need("thread_rounds", rep.counters.get("thread_rounds", 0), nproc * rounds)
     rep.need("rounds_first_frames_overlapped", rep.counters.get("rounds_first_frames_overlapped", 0), 20)
     rep.need("rounds_forced_into_state_creation", rep.counters.get("rounds_forced_into_state_creation", 0), nproc * rounds // 2)
